@@ -53,7 +53,7 @@ def run_history(ctx, hseed, nsteps, mon_factory=None):
             kinds.append("M0" if not d else "M")
             hist.trace.append(("MetaData", e.id, d))
         elif k < 0.67:
-            d = {rnd.choice("abc"): rnd.randint(0, 3) for _ in range(rnd.randint(1, 2))}
+            d = {rnd.choice("abc"): rnd.choice([0, 1, 2, 3, ["f1.root"], ["f1.root", "f2.root"], ["f3.root"]]) for _ in range(rnd.randint(1, 2))}
             hist.qmetadata(e, d)
             kinds.append("Q")
             hist.trace.append(("QMetaData", e.id, d))
